@@ -143,12 +143,16 @@ func perr(op, path string, err error) error {
 // log and in scheduling keys (random identifiers -> first-appearance numbers).
 var CanonName func(base string) string
 
-func point(op, path string) {
+func canonBase(path string) string {
 	b := filepath.Base(path)
 	if CanonName != nil {
 		b = CanonName(b)
 	}
-	simrt.Point("fs:"+op, b)
+	return b
+}
+
+func point(op, path string) {
+	simrt.Point("fs:"+op, canonBase(path))
 }
 
 // fault decides whether this operation fails by injection.
@@ -171,7 +175,7 @@ func (fs *FS) fault(op, path string) error {
 		}
 	}
 	s.Stat("fault_fs_" + op)
-	s.Logf("fs FAULT %s %s: %v", op, filepath.Base(path), e)
+	s.Logf("fs FAULT %s %s: %v", op, canonBase(path), e)
 	return perr(op, path, e)
 }
 
@@ -180,7 +184,7 @@ func (fs *FS) fault(op, path string) error {
 // (-1: no crash).
 func (fs *FS) mutating(op, path string, wlen int) (crash bool, torn int) {
 	fs.OpN++
-	fs.Ops = append(fs.Ops, op+" "+filepath.Base(path))
+	fs.Ops = append(fs.Ops, op+" "+canonBase(path))
 	if fs.CrashAt != 0 && fs.OpN == fs.CrashAt {
 		if op == "write" && fs.Torn && wlen > 0 {
 			s := simrt.Cur()
@@ -302,7 +306,7 @@ func (f *File) Write(p []byte) (int, error) {
 				s.Stat("crash_torn_write")
 			}
 		}
-		fs.doCrash("write " + filepath.Base(f.path)) // does not return
+		fs.doCrash("write " + canonBase(f.path)) // does not return
 	}
 	if err := fs.fault("write", f.path); err != nil {
 		// short write: a prefix may have reached the file
@@ -406,7 +410,7 @@ func (f *File) Sync() error {
 		return perr("sync", f.path, ErrClosed)
 	}
 	if crash, _ := fs.mutating("sync", f.path, 0); crash {
-		fs.doCrash("sync " + filepath.Base(f.path))
+		fs.doCrash("sync " + canonBase(f.path))
 	}
 	if err := fs.fault("sync", f.path); err != nil {
 		fs.mu.Unlock()
@@ -495,7 +499,7 @@ func OpenFile(name string, flag int, _ FileMode) (*File, error) {
 	willMutate := (flag&O_CREATE != 0 && !ok) || (flag&O_TRUNC != 0 && ok)
 	if willMutate || mut {
 		if crash, _ := fs.mutating("create", name, 0); crash {
-			fs.doCrash("create " + filepath.Base(name))
+			fs.doCrash("create " + canonBase(name))
 		}
 	}
 	if err := fs.fault(op, name); err != nil {
@@ -537,7 +541,7 @@ func Remove(name string) error {
 	point("remove", name)
 	fs.mu.Lock()
 	if crash, _ := fs.mutating("remove", name, 0); crash {
-		fs.doCrash("remove " + filepath.Base(name))
+		fs.doCrash("remove " + canonBase(name))
 	}
 	if err := fs.fault("remove", name); err != nil {
 		fs.mu.Unlock()
@@ -580,7 +584,7 @@ func Rename(oldp, newp string) error {
 	point("rename", newp)
 	fs.mu.Lock()
 	if crash, _ := fs.mutating("rename", newp, 0); crash {
-		fs.doCrash("rename " + filepath.Base(newp))
+		fs.doCrash("rename " + canonBase(newp))
 	}
 	if err := fs.fault("rename", newp); err != nil {
 		fs.mu.Unlock()
